@@ -364,13 +364,11 @@ def search(rep: C.Report, tier: str, broken):
                               info, finding_key="C01:sign-change")
             # returned temperatures / profiles are those of the converged solution at that velocity
             p0, wp0, _, bg0, hr0 = eom.wallPressure(v, wp)
-            if abs(hr0.temperaturePlus - ref.temperaturePlus) > 1e-9 * Tn or abs(hr0.temperatureMinus - ref.temperatureMinus) > 1e-9 * Tn \
-                    or abs(hr0.velocityJouguet - ref.velocityJouguet) > 1e-12:
+            if not abs(hr0.temperaturePlus - ref.temperaturePlus) <= 1e-09 * Tn or not abs(hr0.temperatureMinus - ref.temperatureMinus) <= 1e-09 * Tn or (not abs(hr0.velocityJouguet - ref.velocityJouguet) <= 1e-12):
                 rep.violation("temperatures/Jouguet velocity returned with the result are not those of the matching at the reported velocity",
                               dict(info, fresh=[hr0.temperaturePlus, hr0.temperatureMinus], reported=[ref.temperaturePlus, ref.temperatureMinus]),
                               finding_key="C01:fields")
-            if np.max(np.abs(np.asarray(wp0.widths) - np.asarray(ref.wallWidths))) > 0.02 * np.max(np.asarray(ref.wallWidths)) \
-                    or np.max(np.abs(np.asarray(bg0.temperatureProfile) - np.asarray(ref.temperatureProfile))) > 2e-3 * Tn:
+            if not np.max(np.abs(np.asarray(wp0.widths) - np.asarray(ref.wallWidths))) <= 0.02 * np.max(np.asarray(ref.wallWidths)) or not np.max(np.abs(np.asarray(bg0.temperatureProfile) - np.asarray(ref.temperatureProfile))) <= 0.002 * Tn:
                 rep.violation("wall widths / temperature profile returned with the result are not those of the converged solution at that velocity",
                               dict(info, fresh_widths=np.asarray(wp0.widths).tolist(), reported_widths=np.asarray(ref.wallWidths).tolist()),
                               finding_key="C01:profiles")
